@@ -268,7 +268,7 @@ failure table happen inside each.
   section.
 * `CheckBruteforce` reads the list under the read lock (detection) and, on some paths, later enters one
   write-locked section that reads the list again, filters it and stores it (`pruneEntries`) — the
-  read–filter–write is a single section.  (Before the repair /repo 8fa3850 the list read in the first
+  read–filter–write is a single section.  (Before the repair /repo ab87e57 the list read in the first
   section was written back in the second; see the last `example` of this section.)
 
 `C17_concurrent_no_record_lost` turns this into a statement about every interleaving of any number of
@@ -424,7 +424,7 @@ example : WellFormed [(Job.prune T1, [[Acc.read], [Acc.read, Acc.write]]), (Job.
         (Job.record T0, [[Acc.read, Acc.write]])]).run [0, 1, 0]).shared = [T0] := by
   decide
 
-/-- The same goroutines with the *split* program the source had before /repo 8fa3850 (the second section
+/-- The same goroutines with the *split* program the source had before /repo ab87e57 (the second section
 writes what the first one read): the failure is lost.  The theorems above are about the sections. -/
 example : ((Conc.start [0] [(Job.prune T1, [[Acc.read], [Acc.write]]),
         (Job.record T0, [[Acc.read, Acc.write]])]).run [0, 1, 0]).shared = [] ∧
